@@ -277,6 +277,13 @@ def main():
         changed |= write_if_changed(os.path.join(GEN, 'Caldb.lean'), caldb_table())
     except Exception as e:
         status['caldb'] = 'failed: %s' % e
+    try:
+        import rngsites
+        txt, info = rngsites.table(os.environ.get('IXPE_REPO', os.path.dirname(os.path.dirname(importlib.import_module('ixpeobssim').__file__))))
+        changed |= write_if_changed(os.path.join(GEN, 'RngSites.lean'), txt)
+        status['rngsites'] = {a: dict(n=len(i['sites']), seeds=i['seeds'], du_expr=i['du_expr'], guard=i['guard'], nonglobal=[x for x in i['sites'] if x[3] != 0]) for a, i in info.items()}
+    except Exception as e:
+        status['rngsites'] = 'failed: %s' % e
     status['changed'] = changed
     json.dump(status, open(os.path.join(HERE, 'gen_status.json'), 'w'), indent=1, default=str)
     if update:
